@@ -322,8 +322,11 @@ package xmpp
 //@   emits EventHandler
 //
 // Transport interface (the parts the session and component code relies on).
+//@ pred headerId(id) := count(TokenRead) > old(count(TokenRead)) && stanza.isOpen(last(TokenRead)) && stanza.idOf(last(TokenRead).(xml.StartElement).Attr, id)
 //@ func (xmpp.Transport).Connect(t) (id, err)
 //@   emit Connected(t, id) when err == nil
+//@   ensures [C16.connect.id] err == nil ==> headerId(id)
+//@   emits TokenRead
 //@ func (xmpp.Transport).GetDecoder(t) (d)
 //@   ensures d != nil
 //@ func (xmpp.Transport).Close(t) (err)
@@ -343,7 +346,7 @@ package xmpp
 //@   ensures [C16.wire] count(Write) <= old(count(Write)) + 1 && (count(Write) == old(count(Write)) + 1 ==> count(Connected) == old(count(Connected)) + 1 && last(Write, 1) == "<handshake>" + hexenc(sha1raw(last(Connected, 1) + c.Secret)) + "</handshake>" && at(Connected, count(Connected) - 1) < at(Write, count(Write) - 1))
 //@   ensures [C16.wire.first] err == nil ==> count(Write) == old(count(Write)) + 1 && at(Write, count(Write) - 1) < at(PacketRead, count(PacketRead) - 1)
 //@   assigns c.TransportConfiguration.Domain, c.transport, c.CurrentState.state
-//@   emits EventHandler, Connected, Write, PacketRead, Spawn_recv, Spawn
+//@   emits EventHandler, Connected, Write, PacketRead, Spawn_recv, Spawn, TokenRead
 
 // ---------------------------------------------------------------------------
 // C14: SASL
@@ -460,6 +463,7 @@ package xmpp
 //@   ensures [C05.same]  forall(j, 0, newSpawns(), arg(Spawn_route, old(count(Spawn_route)) + j, 2) == arg(PacketRead, old(count(PacketRead)) + j) && arg(Spawn_route, old(count(Spawn_route)) + j, 1) == iface(c))
 //@   ensures [C05.acks]  count(AnswerSent) - old(count(AnswerSent)) == count(AckReqRead) - old(count(AckReqRead))
 //@   ensures [C09.count] c.Session.SMState.Inbound - old(c.Session.SMState.Inbound) == count(StanzaRead) - old(count(StanzaRead))
+//@   ensures [C05.spawns.only,C12.spawns.only] count(Spawn) - old(count(Spawn)) == newSpawns()
 //@   ensures [C12.once]  !(newSpawns() + 1 == newReads() && typeof(last(PacketRead)) == stanza.StreamClosePacket) ==> count(ErrorHandler) - old(count(ErrorHandler)) == count(StreamErrRead) - old(count(StreamErrRead)) + 1 && c.CurrentState.state == StateDisconnected
 //@   ensures [C12.event] (!(newSpawns() + 1 == newReads() && typeof(last(PacketRead)) == stanza.StreamClosePacket) && c.Handler != nil) ==> count(EventHandler) - old(count(EventHandler)) == count(StreamErrRead) - old(count(StreamErrRead)) + 1 && last(EventHandler).State.state == StateDisconnected && last(EventHandler).SMState == c.Session.SMState && atlast(ErrorHandler) < atlast(EventHandler)
 //@   assigns c.Session.SMState.Inbound, c.Session.SMState.UnAckQueue.Uslice, c.CurrentState.state
@@ -474,6 +478,7 @@ package xmpp
 //@     invariant wfRouter(c.router)
 //@     invariant c.router.IQResultRoutes != nil && lockFree(c.router)
 //@     invariant cQueue(c) != nil ==> (base(cQueue(c).Uslice) == old(base(cQueue(c).Uslice)) || fresh(cQueue(c).Uslice))
+//@     invariant [C05.spawns.only,C12.spawns.only] count(Spawn) - old(count(Spawn)) == newSpawns()
 //@     invariant [C05.once]  newSpawns() == newReads() && newReads() >= 0
 //@     invariant [C05.same]  forall(j, 0, newSpawns(), arg(Spawn_route, old(count(Spawn_route)) + j, 2) == arg(PacketRead, old(count(PacketRead)) + j) && arg(Spawn_route, old(count(Spawn_route)) + j, 1) == iface(c))
 //@     invariant [C05.acks]  count(AnswerSent) - old(count(AnswerSent)) == count(AckReqRead) - old(count(AckReqRead))
@@ -620,9 +625,18 @@ package xmpp
 //@   ensures [C04.tls.verify] t.isSecure ==> count(TLSHandshake) == old(count(TLSHandshake)) + 1 && last(TLSHandshake, 3) && last(TLSHandshake, 1) == old(wantedServerName(t)) && (last(TLSHandshake, 2) || (count(HostVerified) == old(count(HostVerified)) + 1 && last(HostVerified, 0) == last(TLSHandshake, 0) && last(HostVerified, 1) == t.Config.Domain && last(HostVerified, 2) && atlast(TLSHandshake) < atlast(HostVerified)))
 //@   ensures [C04.tls.skip]   t.isSecure ==> last(TLSHandshake, 2) == (old(t.Config.TLSConfig) != nil && old(t.Config.TLSConfig.InsecureSkipVerify))
 //@   ensures [C04.tls.conn]   t.isSecure ==> typeof(t.conn) == *tls.Conn && t.conn.(*tls.Conn) == last(TLSHandshake, 0)
+//@   ensures [C05.transport.nodeadline] count(ReadDeadlineSet) == old(count(ReadDeadlineSet)) || last(ReadDeadlineSet, 1)
 //@   ensures t.Config == old(t.Config)
 //@   assigns t.TLSConfig, t.isSecure, t.conn, t.readWriter, t.decoder
 //@   emits TLSHandshake, HostVerified
+//
+// Closing the transport closes the socket - whatever becomes of the closing stream tag: a blocked read of the receive
+// loop ends only then (the keepalive relies on it when a ping fails).
+//@ func (*xmpp.XMPPTransport).Close(t) (err)
+//@   requires t != nil
+//@   ensures [C12.close.socket] old(t.conn) != nil ==> count(ConnClosed) == old(count(ConnClosed)) + 1 && last(ConnClosed, 0) == old(t.conn)
+//@   ensures [C12.close.once]   count(ConnClosed) <= old(count(ConnClosed)) + 1
+//@   emits Write, ConnClosed, Select, Selected, ChanRecv
 //
 // Package-level error values are created by package initialisation and never reassigned (scanned).
 //@ globalinv ErrTLSNotSupported != nil && ErrTransportProtocolNotSupported != nil && ErrCanOnlySendGetOrSetIq != nil
@@ -632,6 +646,8 @@ package xmpp
 //@   requires t != nil && t.decoder != nil
 //@   emit StreamStarted(iface(t), err == nil)
 //@   ensures [C03.startstream.header] count(Write) >= old(count(Write)) + 1 && arg(Write, old(count(Write)), 0) == iface(t) && arg(Write, old(count(Write)), 1) == sprintf(t.openStatement) && (err == nil ==> count(Write) == old(count(Write)) + 1)
+//@   ensures [C16.startstream.id] err == nil ==> headerId(id)
+//@   ensures [C05.transport.nodeadline] count(ReadDeadlineSet) == old(count(ReadDeadlineSet)) || last(ReadDeadlineSet, 1)
 //@   ensures t.isSecure == old(t.isSecure) && t.Config == old(t.Config)
 //@   emits Write, TokenRead, ChanRecv, Select
 //
@@ -639,6 +655,8 @@ package xmpp
 //@   requires t != nil
 //@   emit Connected(iface(t), id) when err == nil
 //@   ensures [C04.connect.plain] err == nil ==> !t.isSecure && t.conn != nil && fresh(t.conn) && count(Dialed) == old(count(Dialed)) + 1 && last(Dialed, 0) == t.Config.Address
+//@   ensures [C16.connect.id] err == nil ==> headerId(id)
+//@   ensures [C05.transport.nodeadline] count(ReadDeadlineSet) == old(count(ReadDeadlineSet)) || last(ReadDeadlineSet, 1)
 //@   ensures t.Config == old(t.Config)
 //@   assigns t.conn, t.closeChan, t.readWriter, t.decoder, t.isSecure
 //@   emits Dialed, Write, TokenRead, ChanRecv, Select, StreamStarted
